@@ -1,14 +1,23 @@
 package c17
 
 // C17 runtime half: deterministic block execution.
-//  * a seeded history (genesis + blocks of really signed transactions: bank, staking, gov with fx messages, crosschain
-//    oracle bonding / claims / pool / batches / oracle-set requests, erc20 conversion, EVM -> precompiles, migrate,
-//    invalid transactions mixed in) is generated against the parent's app instance and written to a file;
-//  * the same history is re-executed (a) in the same process on a fresh app instance and (b) by re-executing this test
-//    binary in several fresh processes with different GOMAXPROCS / TZ / GOGC / GODEBUG / cwd / HOME / DB backend and
-//    staggered start times; app hash, tx-result digests, event digest and validator updates must agree line by line;
-//  * correspondence with the Lean models of the order-sensitive computations (op lines -> Driver/C17.lean): PowerDiff,
-//    GetSupportChains, GetAllBatchFees; repeated calls of the real functions must be bit-identical (monitors).
+//  * a seeded history (genesis + ~35 blocks of really signed transactions: bank, staking, gov with fx messages incl. a
+//    proposal that drops SEVERAL bonded oracles at once and coin registrations, crosschain oracle bonding / housekeeping /
+//    claims / pool with several bridged tokens / fee increase / cancel / one batch per token / bridge calls / oracle-set
+//    requests / time-outs, erc20 conversion both ways, EVM -> precompiles, migrate, invalid transactions and transactions
+//    whose gas limit sits at the boundary of what they need) is generated against the parent's app instance and written
+//    to a file;
+//  * the same history is re-executed (a) in the same process by 8 fresh app instances with different PROCESS HISTORIES
+//    (plain; restarted on the same database before every / some blocks; serving CheckTx + simulations + dry runs of the
+//    injected messages + gRPC queries between blocks; both), (b) by re-executing this test binary in several fresh
+//    processes with different GOMAXPROCS / TZ / GOGC / GODEBUG / cwd / HOME / DB backend, staggered start times and
+//    process-history modes, (c) by child processes whose wall clock is shifted (fakeclock_test.go); app hash, per-store
+//    commit hashes, results hash, per-transaction gas used / wanted and result codes, full result digest, event digest
+//    and validator updates must agree line by line;
+//  * correspondence with the Lean models (op lines -> Driver/C17.lean): PowerDiff, binary64 addition (round53 / fadd),
+//    GetSupportChains, GetAllBatchFees with and without per-token limit / base fees, UpdateProposalOracles (error kind /
+//    unbonding order on a branch of each history's state), gov Tally (sum of per-validator contributions); repeated calls
+//    of the real functions must be bit-identical (monitors).
 
 import (
 	"encoding/json"
@@ -229,7 +238,7 @@ func compare(out *hx.Out, h *detx.History, kinds [][]string, histPath, refName s
 func TestC17(t *testing.T) {
 	seed := hx.Seed()
 	out := hx.NewOut()
-	defer out.Close("validation: seeded histories of really signed transactions (bank, staking, gov+fx messages, crosschain bonding/claims/pool/batch/oracle sets, erc20, EVM precompiles, migrate, invalid txs) executed on 2 in-process instances and N fresh processes (GOMAXPROCS/TZ/GOGC/GODEBUG/cwd/HOME/DB/start-time varied); app hash + results hash + full result digest + event digest + validator updates compared per block. correspondence: PowerDiff / GetSupportChains / GetAllBatchFees against the Lean models; monitors: repeated calls bit-identical. non-trivial = distinct (tx kind, result code)")
+	defer out.Close("validation: seeded histories of really signed transactions (bank, staking, gov+fx messages incl. multi-oracle removal, crosschain bonding/claims/pool with several tokens/batches/bridge calls/oracle sets/time-outs, erc20, EVM precompiles, migrate, invalid txs, boundary gas limits) executed on 9 in-process instances (plain / restarted / serving CheckTx+simulations+queries) and N fresh processes (GOMAXPROCS/TZ/GOGC/GODEBUG/cwd/HOME/DB/start-time/process-history/wall-clock-offset varied); app hash + per-store hashes + results hash + per-tx gas and codes + full result digest + event digest + validator updates compared per block. correspondence: PowerDiff / f64add / GetSupportChains / GetAllBatchFees(+limits) / UpdateProposalOracles / gov Tally against the Lean models; monitors: repeated calls bit-identical. non-trivial = distinct (tx kind, result code) and model-op outcome classes")
 	workDir := filepath.Join(hx.OutDir(), "c17")
 	_ = os.RemoveAll(workDir)
 	if err := os.MkdirAll(workDir, 0o755); err != nil {
